@@ -94,14 +94,21 @@ def signature(verdict):
     if sig["clause"] == "area":
         sig["ringRetracesEdge"] = d.get("retrace") == "1"
         sig["retracedSameDirection"] = d.get("rsame") == "1"
+        if d.get("htouch") == "1":
+            sig["holeTouchesSelfCrossingShell"] = True
     if sig["clause"] == "output-valid":
         sig["code"] = d.get("code", "?")
         sig["bothOrientations"] = d.get("lobes") == "1"
     if sig["clause"] == "keep-collapsed":
         sig["insideCollection"] = d.get("incoll") == "1"
     if sig["clause"] == "dispatch":
-        sig["model"] = d.get("mt", "?")[:40]
-        sig["impl"] = d.get("it", "?")[:40]
+        mt, it = d.get("mt", "?"), d.get("it", "?")
+        # the recorded finding "an empty polygonal result is typed as an empty collection", met at any depth of a collection: the two type
+        # trees differ only where the model has polygon:empty and the implementation collection:empty
+        if mt != it and mt.replace("polygon:empty", "collection:empty") == it.replace("polygon:empty", "collection:empty"):
+            mt, it = "polygon:empty", "collection:empty"
+        sig["model"] = mt[:40]
+        sig["impl"] = it[:40]
     return sig
 
 
